@@ -1,11 +1,15 @@
 package main
 
-// part E: which middleware a client carries.  A program of Client.OnAfterResponse /
-// OnBeforeRequest registrations and Client.Clone() calls builds a family of clients (the base
-// starts with 0..8 middleware so that every slice-capacity situation occurs); then every client
-// fires one request and the ids of the middleware that ran are logged.  Oracle (from the property
-// text): a client runs, in registration order, the middleware registered on it - those its source
-// carried when it was cloned, then its own - whatever happens later on any other client.
+// part E: what a client carries.  A program of Client.OnAfterResponse / OnBeforeRequest /
+// WrapRoundTripFunc registrations, SetCommonErrorResult settings and Client.Clone() calls builds a
+// family of clients (the base starts with 0..8 user functions, wrappers among them, so that every
+// slice-capacity situation and the "cloned while carrying a wrapped round-trip chain" situation
+// occur); then every client fires one request that is answered 500 + JSON, and the ids of the user
+// functions that ran and the type of ErrorResult() are recorded.  Oracle (from the property text): a
+// client runs, in registration order, the response middleware registered on it - those its source
+// carried when it was cloned, then its own -, likewise its request middleware and its wrappers
+// (outermost = last registered), and binds the error body to ITS common error type, whatever
+// happens later on any other client.
 
 import (
 	"bytes"
@@ -19,27 +23,47 @@ import (
 )
 
 type cloneOp struct {
-	Clone bool `json:"clone,omitempty"`
-	C     int  `json:"c"`              // registering client / source of the clone
-	Resp  bool `json:"resp,omitempty"` // OnAfterResponse (else OnBeforeRequest)
-	M     int  `json:"m,omitempty"`
+	Op string `json:"op"` // reg-resp | reg-req | wrap | errtype | clone
+	C  int    `json:"c"`  // acting client / source of the clone
+	M  int    `json:"m,omitempty"`
+}
+
+type comT2 struct {
+	Msg string `json:"msg"`
 }
 
 func genCloneOps(rng *hk.Rand, base int) []cloneOp {
 	var ops []cloneOp
 	id := 0
-	for i := 0; i < base; i++ { // the base client's own middleware (response middleware mostly)
+	pick := func() string {
+		switch k := rng.Intn(100); {
+		case k < 50:
+			return "reg-resp"
+		case k < 62:
+			return "reg-req"
+		case k < 85:
+			return "wrap"
+		}
+		return "errtype"
+	}
+	one := func(c int) cloneOp {
+		op := pick()
+		if op == "errtype" {
+			return cloneOp{Op: op, C: c, M: rng.Range(1, 2)}
+		}
 		id++
-		ops = append(ops, cloneOp{C: 0, Resp: rng.Chance(80), M: id})
+		return cloneOp{Op: op, C: c, M: id}
+	}
+	for i := 0; i < base; i++ { // what the base client carries before anything is cloned
+		ops = append(ops, one(0))
 	}
 	n := 1
 	for k := rng.Range(3, 9); k > 0; k-- {
 		if n < 5 && rng.Chance(45) {
-			ops = append(ops, cloneOp{Clone: true, C: rng.Intn(n)})
+			ops = append(ops, cloneOp{Op: "clone", C: rng.Intn(n)})
 			n++
 		} else {
-			id++
-			ops = append(ops, cloneOp{C: rng.Intn(n), Resp: rng.Chance(75), M: id})
+			ops = append(ops, one(rng.Intn(n)))
 		}
 	}
 	return ops
@@ -47,42 +71,77 @@ func genCloneOps(rng *hk.Rand, base int) []cloneOp {
 
 func intsStr(l []int) string { return strings.Trim(strings.ReplaceAll(fmt.Sprint(l), " ", ","), "[]") }
 
+type carried struct {
+	resp, req, wraps []int
+	et               int
+}
+
 func runClone(r *hk.Run, ops []cloneOp) {
-	var ranResp, ranReq []int
+	var ranResp, ranReq, ranWrap []int
 	stub := func(rt http.RoundTripper) req.HttpRoundTripFunc {
 		return func(hr *http.Request) (*http.Response, error) {
-			return &http.Response{StatusCode: 200, Status: "200 OK", Proto: "HTTP/1.1", ProtoMajor: 1, ProtoMinor: 1,
-				Header: http.Header{}, Body: io.NopCloser(bytes.NewReader([]byte("ok"))), Request: hr}, nil
+			h := http.Header{}
+			h.Set("Content-Type", "application/json")
+			return &http.Response{StatusCode: 500, Status: "500 Internal Server Error", Proto: "HTTP/1.1", ProtoMajor: 1, ProtoMinor: 1,
+				Header: h, Body: io.NopCloser(bytes.NewReader([]byte(`{"msg":"m"}`))), Request: hr}, nil
 		}
 	}
 	base := req.C()
 	base.GetTransport().WrapRoundTripFunc(stub)
 	clients := []*req.Client{base}
-	type pair struct{ resp, req []int }
-	want := []pair{{}}
+	want := []carried{{}}
 	var coq []string
 	for _, o := range ops {
-		if o.Clone {
-			c := clients[o.C].Clone()
-			clients = append(clients, c)
-			want = append(want, pair{append([]int{}, want[o.C].resp...), append([]int{}, want[o.C].req...)})
-			coq = append(coq, "CClone "+hk.CoqNat(o.C))
-			continue
-		}
 		m := o.M
-		if o.Resp {
+		switch o.Op {
+		case "clone":
+			clients = append(clients, clients[o.C].Clone())
+			w := want[o.C]
+			want = append(want, carried{append([]int{}, w.resp...), append([]int{}, w.req...), append([]int{}, w.wraps...), w.et})
+			coq = append(coq, "CClone "+hk.CoqNat(o.C))
+		case "reg-resp":
 			clients[o.C].OnAfterResponse(func(c *req.Client, resp *req.Response) error { ranResp = append(ranResp, m); return nil })
 			want[o.C].resp = append(want[o.C].resp, m)
-		} else {
+			coq = append(coq, fmt.Sprintf("CReg %s KResp %s", hk.CoqNat(o.C), hk.CoqNat(m)))
+		case "reg-req":
 			clients[o.C].OnBeforeRequest(func(c *req.Client, rq *req.Request) error { ranReq = append(ranReq, m); return nil })
 			want[o.C].req = append(want[o.C].req, m)
+			coq = append(coq, fmt.Sprintf("CReg %s KReq %s", hk.CoqNat(o.C), hk.CoqNat(m)))
+		case "wrap":
+			clients[o.C].WrapRoundTripFunc(func(rt req.RoundTripper) req.RoundTripFunc {
+				return func(rq *req.Request) (*req.Response, error) { ranWrap = append(ranWrap, m); return rt.RoundTrip(rq) }
+			})
+			want[o.C].wraps = append(want[o.C].wraps, m)
+			coq = append(coq, fmt.Sprintf("CReg %s KWrap %s", hk.CoqNat(o.C), hk.CoqNat(m)))
+		case "errtype":
+			if m == 1 {
+				clients[o.C].SetCommonErrorResult(&comT{})
+			} else {
+				clients[o.C].SetCommonErrorResult(&comT2{})
+			}
+			want[o.C].et = m
+			coq = append(coq, fmt.Sprintf("CErrType %s %s", hk.CoqNat(o.C), hk.CoqNat(m)))
 		}
-		coq = append(coq, fmt.Sprintf("CReg %s %s %s", hk.CoqNat(o.C), hk.CoqBool(o.Resp), hk.CoqNat(m)))
+	}
+	nat := func(l []int) string {
+		var o []string
+		for _, x := range l {
+			o = append(o, hk.CoqNat(x))
+		}
+		return hk.CoqList(o)
+	}
+	rev := func(l []int) []int {
+		o := make([]int, len(l))
+		for i, x := range l {
+			o[len(l)-1-i] = x
+		}
+		return o
 	}
 	var obs []string
-	var got [][2][]int
+	var got []map[string]interface{}
 	for i, c := range clients {
-		ranResp, ranReq = nil, nil
+		ranResp, ranReq, ranWrap = nil, nil, nil
+		et := -1
 		func() {
 			defer func() {
 				if v := recover(); v != nil {
@@ -92,25 +151,41 @@ func runClone(r *hk.Run, ops []cloneOp) {
 			resp, err := c.R().Get("http://c18.test/clone")
 			if err != nil || resp == nil || resp.Response == nil {
 				r.Fail(hk.Failure{Sig: "clone:call-failed", What: "plain GET through the stub failed", Input: ops, Got: fmt.Sprint(err)})
+				return
+			}
+			switch resp.ErrorResult().(type) {
+			case nil:
+				et = 0
+			case *comT:
+				et = 1
+			case *comT2:
+				et = 2
+			default:
+				et = 9
 			}
 		}()
-		got = append(got, [2][]int{append([]int{}, ranResp...), append([]int{}, ranReq...)})
+		in := map[string]interface{}{"ops": ops, "client": i}
 		if intsStr(ranResp) != intsStr(want[i].resp) {
 			r.Fail(hk.Failure{Sig: fmt.Sprintf("clone:response-middleware:len%d", len(want[i].resp)), What: "a client did not run exactly the response middleware registered on it (those its source carried at Clone time, then its own), in order",
-				Input: map[string]interface{}{"ops": ops, "client": i}, Got: ranResp, Want: want[i].resp})
+				Input: in, Got: ranResp, Want: want[i].resp})
 		}
 		if intsStr(ranReq) != intsStr(want[i].req) {
 			r.Fail(hk.Failure{Sig: fmt.Sprintf("clone:request-middleware:len%d", len(want[i].req)), What: "a client did not run exactly the request middleware registered on it, in order",
-				Input: map[string]interface{}{"ops": ops, "client": i}, Got: ranReq, Want: want[i].req})
+				Input: in, Got: ranReq, Want: want[i].req})
 		}
-		nat := func(l []int) string {
-			var o []string
-			for _, x := range l {
-				o = append(o, hk.CoqNat(x))
-			}
-			return hk.CoqList(o)
+		if intsStr(ranWrap) != intsStr(rev(want[i].wraps)) {
+			r.Fail(hk.Failure{Sig: fmt.Sprintf("clone:wrappers:len%d", len(want[i].wraps)), What: "a client's request did not pass through exactly the round-trip wrappers registered on it, the last registered outermost",
+				Input: in, Got: ranWrap, Want: rev(want[i].wraps)})
 		}
-		obs = append(obs, hk.CoqPair(nat(ranResp), nat(ranReq)))
+		if et != want[i].et {
+			r.Fail(hk.Failure{Sig: fmt.Sprintf("clone:error-type:wraps%d", len(want[i].wraps)), What: "the error-state body was not bound to the common error type set on the client the request was fired from",
+				Input: in, Got: et, Want: want[i].et})
+		}
+		got = append(got, map[string]interface{}{"resp": ranResp, "req": ranReq, "wraps": ranWrap, "error_type": et})
+		if et < 0 {
+			et = 99
+		}
+		obs = append(obs, fmt.Sprintf("(%s, %s, %s, %s)", nat(ranResp), nat(ranReq), nat(ranWrap), hk.CoqNat(et)))
 	}
 	r.Count("part=clone")
 	r.Count(fmt.Sprintf("clone.clients=%d", len(clients)))
